@@ -446,6 +446,117 @@ mod c06 {
         kani::cover!(matches!(r, Ok(None)) && !wildcard, "concrete: filtered out");
     }
 
+    // ---------------------------------------------------------------------------------------
+    // The anchored endpoint is no longer reachable (its group membership was removed by the
+    // handler of the element yielded last - what a groupcast RemoveGroup does): the step must
+    // serve the next endpoint from its first leaf.  [finding F25]
+    // ---------------------------------------------------------------------------------------
+
+    fn attr_gate_ok<'a>(_cl: &Cluster<'a>, _accessor: &Accessor, _timed: bool, _path: GenericPath, _dts: &[DeviceType], _write: bool, _attr_id: AttrId) -> Result<(), IMStatusCode>
+    where
+        'a: 'a,
+    {
+        Ok(())
+    }
+
+    fn cmd_gate_ok<'a>(_cl: &Cluster<'a>, _accessor: &Accessor, _timed: bool, _path: GenericPath, _dts: &[DeviceType], _cmd_id: CmdId) -> Result<(), IMStatusCode>
+    where
+        'a: 'a,
+    {
+        Ok(())
+    }
+
+    /// reachability by contract: endpoint 3 has left the group, endpoint 5 is a member
+    fn only_endpoint_5_reachable<'a>(_a: &Accessor<'a>, ep: EndptId) -> bool
+    where
+        'a: 'a,
+    {
+        ep == 5
+    }
+
+    fn keep_all(_e: EndptId, _c: ClusterId, _l: u32) -> bool {
+        true
+    }
+
+    fn skipped_anchor_step<const O: u8>() {
+        let matter = MATTER;
+        let accessor = Accessor::new(1, false, AccessorSubjects::new(7), Some(AuthMode::Group), &matter);
+        let a0 = [Attribute::new(20, Access::all(), Quality::NONE), Attribute::new(21, Access::all(), Quality::NONE)];
+        let a1 = [Attribute::new(20, Access::all(), Quality::NONE), Attribute::new(21, Access::all(), Quality::NONE)];
+        let c0 = [Command::new(20, None, Access::all()), Command::new(21, None, Access::all())];
+        let c1 = [Command::new(20, None, Access::all()), Command::new(21, None, Access::all())];
+        let cl0 = [Cluster::new(10, 1, 0, &a0, &c0, &[], yes_attr, yes_cmd, yes_event)];
+        let cl1 = [Cluster::new(10, 1, 0, &a1, &c1, &[], yes_attr, yes_cmd, yes_event)];
+        let dt = [DeviceType { dtype: 0x100, drev: 1 }];
+        let endpoints = [Endpoint::new(3, &dt, &cl0), Endpoint::new(5, &dt, &cl1)];
+        let node = Node::new(&endpoints);
+
+        // wildcard endpoint (the only kind of path that visits more than one endpoint)
+        let leaf: Option<u32> = if O == 0 && kani::any() { None } else { Some(kani::any()) };
+        let path = GenericPath::new(None, Some(10), leaf);
+        // cursor: anchored at endpoint 3, anywhere inside it (the previous step yielded one of its leaves)
+        let cur_cl: u16 = kani::any();
+        let cur_leaf: u16 = kani::any();
+        kani::assume(cur_cl <= 1 && cur_leaf <= 2);
+
+        let mut px: PathExpander<'_, KItem<O>, core::iter::Empty<Result<KItem<O>, Error>>, fn(EndptId, ClusterId, u32) -> bool> = PathExpander {
+            accessor: &accessor,
+            timed: false,
+            items: None,
+            item: Some(KItem(path.clone())),
+            endpoint_id: Some(3),
+            cluster_index: cur_cl,
+            leaf_index: cur_leaf,
+            filter: keep_all,
+            last_authorized: None,
+        };
+
+        let r = px.next_for_path(&node);
+
+        // every leaf of endpoint 5 that matches the path is still to be served, the first one now
+        let want = match leaf {
+            None | Some(20) => Some((5u16, 10u32, 20u32)),
+            Some(21) => Some((5, 10, 21)),
+            _ => None,
+        };
+        match r {
+            Ok(Some((e, c, l, _))) => {
+                kani::assert(e != 3, "C06.expand.unreachable_endpoint_yields_nothing");
+                kani::assert(want == Some((e, c, l)), "C06.expand.after_skipped_endpoint_first_match_of_next_endpoint");
+                kani::assert(
+                    px.endpoint_id == Some(5) && px.cluster_index == 0 && px.leaf_index as u32 == l.wrapping_sub(19),
+                    "C06.expand.after_skipped_endpoint_cursor_just_past_yielded_leaf"
+                );
+            }
+            Ok(None) => kani::assert(want.is_none(), "C06.expand.after_skipped_endpoint_next_endpoint_is_served"),
+            Err(_) => kani::assert(false, "C06.expand.wildcard_never_yields_error_status"),
+        }
+        kani::cover!(matches!(r, Ok(Some(_))) && cur_leaf > 0, "next endpoint served although the cursor stood inside the skipped one");
+        kani::cover!(matches!(r, Ok(None)), "nothing matches on the next endpoint");
+    }
+
+    // TIER: quick
+    // KIND: bounded (2 endpoints x 1 cluster x 2 attributes, fixed ids; endpoint-wildcard path, leaf symbolic; cursor anywhere in the skipped endpoint; gates answer Ok)
+    #[kani::proof]
+    #[kani::unwind(5)]
+    #[kani::stub(crate::dm::types::cluster::Cluster::check_attr_access, attr_gate_ok)]
+    #[kani::stub(crate::dm::types::cluster::Cluster::check_cmd_access, cmd_gate_ok)]
+    #[kani::stub(crate::acl::Accessor::is_endpoint_accessible, only_endpoint_5_reachable)]
+    fn c06_expand_step_anchor_left_group_read() {
+        skipped_anchor_step::<0>();
+    }
+
+    // TIER: quick
+    // KIND: bounded (2 endpoints x 1 cluster x 2 commands, fixed ids; endpoint-wildcard command path; cursor anywhere in the skipped endpoint; gates answer Ok)
+    #[kani::proof]
+    #[kani::unwind(5)]
+    #[kani::stub(crate::dm::types::cluster::Cluster::check_attr_access, attr_gate_ok)]
+    #[kani::stub(crate::dm::types::cluster::Cluster::check_cmd_access, cmd_gate_ok)]
+    #[kani::stub(crate::acl::Accessor::is_endpoint_accessible, only_endpoint_5_reachable)]
+    fn c06_expand_step_anchor_left_group_invoke() {
+        skipped_anchor_step::<2>();
+    }
+
     // TIER: thorough
     // KIND: bounded (node of <= 2 endpoints x 2 clusters x 2 attributes, fixed ids; every path; one step from any cursor)
     #[cfg(verif_unclosed)] // did not close in CBMC within 20 min / 12 GB on this machine
